@@ -1,6 +1,6 @@
 import glob, json, os, re
 rows = []
-for d in sorted(glob.glob('/verif/seeded/S*')):
+for d in sorted(glob.glob("/verif/seeded/S*")):
     if not os.path.exists(d + '/meta.json'):
         continue
     m = json.load(open(d + '/meta.json'))
